@@ -59,6 +59,8 @@ def check(cx):
     # reconstructs from them is the one NAMES shows)
     depends(cx, r7, 'C13', ('R13.14',), 'the nick / channel / victim a relayed message names is the one the handler applied',
             only=r'\|(NICK|JOIN|PART|KICK)\.')
+    depends(cx, r7, 'C13', ('R13.5',), 'NAMES lines and announcements reach the socket whole (buffer and encoder do not alter them)',
+            only=r'line-altered|IRCLinesCodec::encode')
     depends(cx, r7, 'C03', ('R3.3', 'R3.6'), 'a registered connection stays marked as such, so its disconnect is cleaned up',
             only=r'writes-authenticated|authenticate-reentry')
     depends(cx, r7, 'C02', ('R2.1',), 'only the teardown takes a user out of the registry', only=r'registry-remove|calls-remove_user')
